@@ -9,10 +9,10 @@ pub fn prop() -> Prop {
     Prop {
         id: "C18",
         level: "model_checking",
-        rule: "(8 base expressions and 3 big ones: nesting depth 33, a 300-character literal, 130 arguments) paths ending in a separator (.a. / .a.b# / (len .a.)) in every position; every foreign output option next to every option of the style's own group; every corrupted configuration alone and next to each of 8 valid neighbour options (--take 0/1, --skip, --unique, --merge, --only-objects-and-arrays, a regex cache, --on-error=panic); valid configurations = 7 option positions (--select, --filter, --split-by, --group-by, --sort-by, --set variable, --set macro) x 8 base expressions x 6 output styles (+ every pure function with a canonical argument list in every position, json style); corruptions (one fault each): truncation at EVERY byte offset that lies inside parentheses or a string, one '(' or ')' too many, unknown function name, arity min-1 / max+1 for every function, trailing garbage of 4 kinds, bad sort directions, malformed --set (no '=', empty name, empty macro name, duplicate, empty value), output options of another style, csv without selections / with grouping / with merge, --headers without selections, invalid enum and numeric option values; non-trivial = the uncorrupted configuration runs Ok and prints >= 1 byte; distinct by construction; every arrangement of <=4 --set options over {a=1, a=2, @a=1, @a=.x, b=1} that binds the same variable or the same macro twice; references /K/ and /Full name/ to a selected name cut anywhere before their closing slash (bare, inside a call, last argument, pipe stage) in 8 option positions",
+        rule: "(8 base expressions and 3 big ones: nesting depth 33, a 300-character literal, 130 arguments) paths ending in a separator (.a. / .a.b# / (len .a.)) in every position; every foreign output option next to every option of the style's own group; every corrupted configuration alone and next to each of 8 valid neighbour options (--take 0/1, --skip, --unique, --merge, --only-objects-and-arrays, a regex cache, --on-error=panic); valid configurations = 7 option positions (--select, --filter, --split-by, --group-by, --sort-by, --set variable, --set macro) x 8 base expressions x 6 output styles (+ every pure function with a canonical argument list in every position, json style); corruptions (one fault each): truncation at EVERY byte offset that lies inside parentheses or a string, one '(' or ')' too many, unknown function name, arity min-1 / max+1 for every function, trailing garbage of 4 kinds, bad sort directions, malformed --set (no '=', empty name, empty macro name, duplicate, empty value), output options of another style, csv without selections / with grouping / with merge, --headers without selections, invalid enum and numeric option values; non-trivial = the uncorrupted configuration runs Ok and prints >= 1 byte; distinct by construction; every arrangement of <=4 --set options over {a=1, a=2, @a=1, @a=.x, b=1} that binds the same variable or the same macro twice; references /K/ and /Full name/ to a selected name cut anywhere before their closing slash (bare, inside a call, last argument, pipe stage) in 8 option positions; unparsable expressions given as a separate word behind every long, second long and short name of the five expression options, with the input in files named before or after the option, under three --on-error policies",
         explanation: "each corrupted configuration is executed on a non-empty input; oracle: Err (or clap usage error), zero bytes on stdout, the stdin factory is never invoked",
         assumptions: COMMON_ASSUMPTIONS.to_vec(),
-        guards: vec!["truncated-selected-name-reference", "duplicate-set-with-another-binding-in-between", "dangling-path-separator", "with-a-neighbour-option", "truncation", "arity", "trailing-garbage", "set-malformed", "style-mismatch", "csv-without-selection", "valid-config-prints"],
+        guards: vec!["bad-expression-as-a-separate-word-after-file-names", "truncated-selected-name-reference", "duplicate-set-with-another-binding-in-between", "dangling-path-separator", "with-a-neighbour-option", "truncation", "arity", "trailing-garbage", "set-malformed", "style-mismatch", "csv-without-selection", "valid-config-prints"],
         budget_s: (100, 900),
         single_worker: false,
         run,
@@ -134,7 +134,7 @@ fn bad_cuts_all(e: &str) -> Vec<usize> {
 
 /// an invalid configuration stays invalid whatever valid options stand next to it: every case is also run
 /// with each of these neighbours (validation that is skipped or reordered because of another option shows here)
-const NEIGHBOURS: [&str; 8] = ["--take=0", "--take=1", "--skip=1", "--unique", "--merge", "--only-objects-and-arrays", "--regular-expression-cache-size=1", "--on-error=panic"];
+const NEIGHBOURS: [&str; 10] = ["--take=0", "--take=1", "--skip=1", "--unique", "--merge", "--only-objects-and-arrays", "--regular-expression-cache-size=1", "--on-error=panic", "--on-error=stdout", "--on-error=stderr"];
 
 fn judge(ctx: &mut Ctx, kind: &str, detail: &str, args: Vec<String>, nontrivial: bool) {
     judge_one(ctx, kind, detail, args.clone(), nontrivial);
@@ -410,6 +410,48 @@ fn run(ctx: &mut Ctx) {
                     }
                 }
             }
+        }
+        // an unparsable expression given as a separate word (long name, second long name, short option), with the input
+        // in FILES that are named before the option: still nothing may be read or written
+        {
+            let d = crate::drive::work_dir();
+            let f1 = d.join("in1.json");
+            let f2 = d.join("in2.json");
+            std::fs::write(&f1, INPUT).unwrap();
+            std::fs::write(&f2, b"{\"a\":[2]} oops\n").unwrap();
+            let spellings: [(&str, &[&str]); 5] = [
+                ("group", &["--group-by", "--combine", "--merge", "-g"]),
+                ("sort", &["--sort-by", "--order-by", "-s"]),
+                ("filter", &["--filter", "--where", "-f"]),
+                ("select", &["--select", "--choose", "-c"]),
+                ("split", &["--split-by", "--break-by", "-b"]),
+            ];
+            for (pos, opts) in spellings {
+                for opt in opts {
+                    for bad in ["(len", "(len .a))", "(nosuchfn 1)", "\"abc", "(len .a) x", ".a."] {
+                        for policy in ["ignore", "stdout", "stderr"] {
+                            for files_first in [true, false] {
+                                let mut a: Vec<String> = Vec::new();
+                                let files = [f1.to_string_lossy().into_owned(), f2.to_string_lossy().into_owned()];
+                                if files_first {
+                                    a.extend(files.iter().cloned());
+                                }
+                                a.push(format!("--on-error={policy}"));
+                                a.push(opt.to_string());
+                                a.push(bad.to_string());
+                                if !files_first {
+                                    a.push("--unique".into());
+                                    a.extend(files.iter().cloned());
+                                }
+                                ctx.guard("bad-expression-as-a-separate-word-after-file-names");
+                                judge_one(ctx, "separate-word", &format!("{pos} {opt} {bad:?} policy {policy} files-first {files_first}"), a, true);
+                            }
+                        }
+                    }
+                }
+            }
+            let _ = std::fs::remove_file(&f1);
+            let _ = std::fs::remove_file(&f2);
         }
         let mismatches: Vec<(&str, Vec<&str>)> = vec![
             ("csv+style", vec!["--output-style=csv", "--select=.k=K", "--style=pretty"]),
